@@ -26,7 +26,7 @@ CLAIMS = {
     },
     "C02": {
         "text": "Theorems for all trees and all ignore predicates: a path is visited by the traversal that every command shares exactly when it is in the tree and neither it nor an ancestor below the root is ignored (visible_iff); visited paths are non-empty lists of node names (relative, never escaping); with distinct sibling names every entry is visited exactly once and resolves to the node on disk; post-order. Recorded digests are the digests of the file's content and every requested format is present unless a check failed (C04's sealEntries theorems). Tie: scenario differential incl. record order; monitor: independent walk of the disk with pathspec as the definition of 'excluded' versus the records of every manifest written (exactly one record per non-ignored entry, right history, kind, size, digests recomputed with the libraries), for folder mode, -sf mode, nested histories, path spellings.",
-        "note": "Folder mode: C02rec (one history) and C08part (nested, any depth) prove that the written generations hold exactly one record per visited entry, in the deepest history; -sf mode: C02sf proves that exactly the named files / the visible files below named folders are recorded (under SfOk, which click's exists=True validation of -sf and ROOT_PATH establishes). " + COMMON_NOTE,
+        "note": "Folder mode: C02rec (one history) and C08part (nested, any depth) prove that the written generations hold exactly one record per visited entry, in the deepest history; -sf mode: C02sf proves that exactly the named files / the visible files below named folders are recorded (under SfOk, which click's exists=True validation of -sf and ROOT_PATH establishes). The path glue of the command line (os.path.join/normpath/relpath as the tool calls them) is modelled on strings in MhlModel/Paths.lean and tied to posixpath and to the real create -sf / verify -sf: a file below the root gets a clean history-relative POSIX path that is neither absolute nor escaping (historyRelative_below), whatever the spelling (sf_spelling_irrelevant). " + COMMON_NOTE,
         "technique": "Lean 4 proof (mutual structural induction over the tree) + scenario differential + independent disk-walk monitor",
         "design_ref": "7 C02",
     },
@@ -80,7 +80,7 @@ CLAIMS = {
     },
     "C13": {
         "text": "Theorems for trees with distinct sibling names related by any permutation of any directory listing at any depth: the traversal yields EQUAL visit lists (children sorted by code-point order), path look-ups agree, loading the (nested) histories gives the same result including which error is reported, and verify, diff, verify -dh, create (folder and -sf mode, full outcome including every written generation), flatten and info give EQUAL outcomes; counterexamples show distinct names are needed. The model has no access to the absolute location at all: every path it handles is relative to the command root (the repaired code matches patterns against root-relative paths). Tie/monitor: the same scenario sealed at two absolute locations (parents named ascmhl / matching a user pattern / with spaces; trailing slash, dot segments, relative invocation, cwd invocation) and under seeded permutations of os.listdir/os.walk: byte comparison of all ascmhl folders; a sealed tree copied elsewhere verifies as at the original place.",
-        "note": "Mount independence is structural in the model (no absolute path exists in it) and carried by the tie; listing independence is a theorem. " + COMMON_NOTE,
+        "note": "Mount independence is structural in the model (no absolute path exists in it) and carried by the tie (second world on another file system, filled in another order, below a sealed volume); listing independence is a theorem. D19 (the order in which create -dr visited missing paths depended on the mount point) was found by this machinery and repaired; detectRenames_order_independent states when the order cannot matter. " + COMMON_NOTE,
         "technique": "Lean 4 proof (permutation invariance through sorted-permutation uniqueness, congruence over all commands) + two-location / permuted-listing differential on the implementation",
         "design_ref": "7 C13",
     },
@@ -98,12 +98,12 @@ CLAIMS = {
     },
     "C17": {
         "text": "Theorems: one generation step of the expected-path computation (drop the previous paths of the generation's renamed records, add its record paths); a path renamed away in some generation and not recorded again later is not expected, whatever came before (the former defect: a->b then b->c expects only c); the recorded-name look-up steps back to the previous path exactly under stated side conditions; no duplicates; rename detection only ever takes paths off the given missing list and does nothing without new paths. Tie/monitor: rename scenarios (renames in place, moves into existing and new directories, 1-3 rename generations, unrelated new files, format changes, -n) with pairwise distinct contents: create -dr exits 0, records each moved file under its new path with its former path, reports none missing; afterwards verify/diff/create accept the tree, verify fails when a renamed file was also changed; without -dr missing (10).",
-        "note": "C17detect proves the rename-detection double loop sound and complete (a pair is linked iff the digests in the first recorded format agree), that it changes nothing but previousPath fields, and the whole flow end to end (seal, move one file, create -dr exits 0 with the previous path recorded, verify/diff/create accept the tree; without -dr: missing plus new). Pairwise distinct contents are the property's own premise (a Lean witness shows what happens without it). " + COMMON_NOTE,
+        "note": "C17detect proves the rename-detection double loop sound and complete (a pair is linked iff the digests in the first recorded format agree), that it changes nothing but previousPath fields, and the whole flow end to end (seal, move one file, create -dr exits 0 with the previous path recorded, verify/diff/create accept the tree; without -dr: missing plus new). Pairwise distinct contents are the property's own premise (a Lean witness shows what happens without it); the not-found paths are visited in sorted order and detectRenames_order_independent proves the result independent of that order under the premise. " + COMMON_NOTE,
         "technique": "Lean 4 proof (fold lemmas over generations) + rename scenarios differential + independent previousPath monitor",
         "design_ref": "7 C17",
     },
     "C19": {
-        "text": "Theorems: info fails with 30 exactly when the loaded history has no generation; its lines are the history's own generations in ascending order followed by every nested history in pre-order, exactly one line per (history, generation); info -sf prints, generation by generation, exactly the entries of the record the tool's look-up finds for the path (count and content). Tie/monitor: stdout of info / info -sf (with and without explicit root: upward search for the nearest history) parsed into tuples vs the manifests read independently, creation dates included; no-history cases.",
+        "text": "Theorems: info fails with 30 exactly when the loaded history has no generation; its lines are the history's own generations in ascending order followed by every nested history in pre-order, exactly one line per (history, generation); info -sf prints, generation by generation, exactly the entries of the record the tool's look-up finds for the path in the NEAREST ENCLOSING history of the file (ownerHist_deepest, loadHistory_WF, infoSingleFile_nearest; the defect D18 - only the root history was searched - was found here and repaired). Tie/monitor: stdout of info / info -sf (with and without explicit root: upward search for the nearest history) parsed into tuples vs the manifests read independently, creation dates included; no-history cases.",
         "note": COMMON_NOTE,
         "technique": "Lean 4 proof (structural recursion over the history tree) + output differential + independent manifest monitor",
         "design_ref": "7 C19",
